@@ -592,6 +592,9 @@ func F64ToInt(a *Term) *Term { return P.mk("f2i", "", SInt, []*Term{a}, nil) }
 
 func Select(arr, idx *Term) *Term {
 	vs := arrElem(arr.Sort)
+	if idx.Sort == SPtr && idx.Op == "ite" && iteDepth(idx) <= 4 {
+		return Ite(idx.Args[0], Select(arr, idx.Args[1]), Select(arr, idx.Args[2]))
+	}
 	for {
 		if arr.Op == "store" {
 			k := arr.Args[1]
@@ -628,6 +631,10 @@ func Select(arr, idx *Term) *Term {
 			a2 := Select(arr.Args[2], idx)
 			if a1 == a2 {
 				return a1
+			}
+			if a1.Op != "select" || a2.Op != "select" {
+				// one branch wrote this cell: keep the case split explicit
+				return Ite(arr.Args[0], a1, a2)
 			}
 		}
 		break
@@ -683,7 +690,13 @@ func Null() *Term           { return P.mk("null", "", SPtr, nil, nil) }
 func NewObj(k int) *Term    { return P.mk("new", "", SPtr, []*Term{IntT(int64(k))}, nil) }
 func GlobPtr(k int) *Term   { return P.mk("glob", "", SPtr, []*Term{IntT(int64(k))}, nil) }
 func FnPtr(k int) *Term     { return P.mk("fnp", "", SPtr, []*Term{IntT(int64(k))}, nil) }
-func Fld(p *Term, i int) *Term { return P.mk("fld", "", SPtr, []*Term{p, IntT(int64(i))}, nil) }
+func Fld(p *Term, i int) *Term {
+	if p.Op == "ite" {
+		// distribute over a choice of objects so that later selects resolve per object
+		return Ite(p.Args[0], Fld(p.Args[1], i), Fld(p.Args[2], i))
+	}
+	return P.mk("fld", "", SPtr, []*Term{p, IntT(int64(i))}, nil)
+}
 func Elt(p, i *Term) *Term  { return P.mk("elt", "", SPtr, []*Term{p, i}, nil) }
 
 // ---- quantifiers
@@ -1077,6 +1090,10 @@ func Script(asserts []*Term, getValues []*Term, real bool) string {
 			}
 		}
 	}
+	if usedDecl["strlt"] {
+		// strict string order is asymmetric and irreflexive
+		sb.WriteString("(assert (forall ((a!s Str) (b!s Str)) (! (not (and (strlt a!s b!s) (strlt b!s a!s))) :pattern ((strlt a!s b!s)))))\n")
+	}
 	// shared subterms as define-fun
 	for _, t := range order {
 		if ref[t.id] >= 2 && len(t.Args) > 0 && !t.hasBound {
@@ -1171,4 +1188,16 @@ func rebuild(t *Term, args []*Term) *Term {
 		return Store(args[0], args[1], args[2])
 	}
 	return P.mk(t.Op, t.Name, t.Sort, args, t.Bound)
+}
+
+
+func iteDepth(t *Term) int {
+	if t.Op != "ite" {
+		return 0
+	}
+	a, b := iteDepth(t.Args[1]), iteDepth(t.Args[2])
+	if b > a {
+		a = b
+	}
+	return a + 1
 }
